@@ -223,10 +223,11 @@ func (h *hist) genActivate(i int) {
 			e = okExp("activate:accepted-later")
 		}
 	}
+	desc := fmt.Sprintf("val%d activate (active=%v since=%s penalty=%s T=%s)", i, v.active, fmtT(v.since), h.penalty, fmtT(T))
 	if e.ok {
 		v.active, v.since = true, T
 	}
-	h.add(acc, e, fmt.Sprintf("val%d activate (since=%s penalty=%s T=%s)", i, fmtT(v.since), h.penalty, fmtT(T)), oracletypes.NewMsgActivate(acc.Val))
+	h.add(acc, e, desc, oracletypes.NewMsgActivate(acc.Val))
 }
 
 // genForeignActivate: somebody else tries to activate validator i; must fail and change nothing.
@@ -1221,7 +1222,7 @@ func main() {
 		runHistory(run, c.Case)
 		run.Finish()
 	}
-	n := run.N(162, 4050)
+	n := run.N(243, 5400)
 	sim.Parallel(n, 16, func(i int) { runHistory(run, i) })
 	req := []string{
 		"deactivated:missed-request", "deactivated:missed-request:active-since-1s-before-request",
